@@ -327,10 +327,7 @@ hs_dateTime = And([
 # Quantities and raw numeric values
 hs_unitChar = Or([
     hs_alpha,
-    Word(u'%_/$' + u''.join([
-        six.unichr(c)
-        for c in range(0x0080, 0xffff)
-    ]), exact=1)
+    Regex(u'[%_/$\u0080-\U0010ffff]')
 ])
 hs_unit = Combine(OneOrMore(hs_unitChar))
 hs_exp = Combine(And([
